@@ -728,6 +728,7 @@ func init() {
 				for i := 0; i < np; i++ {
 					cs = append(cs, fw.Case{ID: fmt.Sprintf("pair/%d", i), Kind: "pair", P: map[string]any{"i": i}})
 				}
+				cs = append(cs, fw.Case{ID: "race/readers", Kind: "race", P: map[string]any{}})
 				nq := 60
 				if !ctx.Quick {
 					nq = 2000
@@ -883,6 +884,28 @@ func init() {
 					o.Inc("documents_roundtripped")
 				case "common":
 					return c19Common(r, dir, fname)
+				case "race":
+					// the readers under the race detector, used from 12 goroutines at once
+					reps := 6
+					if !ctx.Quick {
+						reps = 40
+					}
+					reports, work, err := runRaceBinary(reps, "readers")
+					if err != nil {
+						return fw.Inconcl(err.Error())
+					}
+					if reports > 0 {
+						return fw.Violate("data_race_in_document_readers", fmt.Sprintf("%d race detector reports while documents were read concurrently", reports))
+					}
+					if v, ok := work["reads_differing_from_single_threaded"].(float64); ok && v > 0 {
+						return fw.Violate("concurrent_read_differs_from_single_threaded_read", fmt.Sprintf("%d of the concurrent reads returned other values than a single-threaded read of the same document", int(v)))
+					}
+					if v, ok := work["concurrent_reads"].(float64); ok {
+						o.Add("concurrent_reads_under_race_detector", int(v))
+						o.Events += int(v)
+					}
+					o.Sample = map[string]any{"race_build": work, "reports": reports}
+					return o
 				case "reqseq":
 					return c19ReqSeq(r, dir, fname)
 				case "corruptvd", "corruptcommon":
